@@ -483,39 +483,52 @@ func yielder(seed int64, intensity int) func() {
 
 func unsafePtr(itm *nitro.Item) unsafe.Pointer { return unsafe.Pointer(itm) }
 
-// loaderStuck inspects one all-goroutine stack sample: true iff some goroutine
-// is parked in a channel send directly inside Nitro.LoadFromDisk while no
-// loader worker goroutine (a func literal of LoadFromDisk running on its own
-// goroutine) exists — nobody can ever receive, so the call can never return.
-func loaderStuck() bool {
+// loaderSample inspects one all-goroutine stack sample and describes every goroutine
+// that belongs to a LoadFromDisk call (the caller, its func literals, goroutines it
+// created — including ones not scheduled yet, whose stack is only the go-wrapper and
+// the "created by" line): sig is the sorted list of (goroutine id, wait state);
+// allParked is true iff every one of them is parked on a synchronisation primitive
+// (channel send/receive, select, semaphore, mutex, condition variable) — none running,
+// runnable, in a system call, waiting for I/O or sleeping. The channels, wait group
+// and mutexes LoadFromDisk uses are local to the call, so if all its goroutines are
+// parked on them nobody can ever wake one of them: the call can never return.
+func loaderSample() (sig string, allParked bool, n int) {
 	buf := make([]byte, 1<<20)
 	for {
-		n := runtime.Stack(buf, true)
-		if n < len(buf) {
-			buf = buf[:n]
+		k := runtime.Stack(buf, true)
+		if k < len(buf) {
+			buf = buf[:k]
 			break
 		}
 		buf = make([]byte, 2*len(buf))
 	}
-	callerParked, workers := false, 0
+	var parts []string
+	allParked = true
 	for _, g := range strings.Split(string(buf), "\n\n") {
 		nl := strings.IndexByte(g, '\n')
-		if nl < 0 {
+		if nl < 0 || !strings.Contains(g, "nitro.(*Nitro).LoadFromDisk") {
 			continue
 		}
-		hdr := g[:nl]
-		isCaller := strings.Contains(g, "nitro.(*Nitro).LoadFromDisk(")
-		// any other goroutine that runs a func literal of LoadFromDisk or was created by it — including one
-		// that has not been scheduled yet (its stack is only the go-wrapper and the "created by" line)
-		isWorker := !isCaller && strings.Contains(g, "nitro.(*Nitro).LoadFromDisk")
-		if isWorker {
-			workers++
+		hdr := g[:nl] // goroutine 12 [chan send, 2 minutes]:
+		a, b := strings.IndexByte(hdr, '['), strings.IndexByte(hdr, ']')
+		if a < 0 || b < a {
+			continue
 		}
-		if isCaller && strings.Contains(hdr, "[chan send") {
-			callerParked = true
+		state := hdr[a+1 : b]
+		if c := strings.IndexByte(state, ','); c >= 0 {
+			state = state[:c]
+		}
+		n++
+		parts = append(parts, strings.TrimSpace(hdr[:a])+" "+state)
+		switch {
+		case strings.HasPrefix(state, "chan send"), strings.HasPrefix(state, "chan receive"), strings.HasPrefix(state, "select"),
+			strings.HasPrefix(state, "semacquire"), strings.HasPrefix(state, "sync."):
+		default:
+			allParked = false
 		}
 	}
-	return callerParked && workers == 0
+	sort.Strings(parts)
+	return strings.Join(parts, ";"), allParked && n > 0, n
 }
 
 // linkedAt searches every level of s (from the head, through marked nodes too)
